@@ -1,10 +1,10 @@
 #!/bin/bash
 # try_mutant.sh <patch> <property>... : apply the patch to /repo, run the listed checks, undo.
-PATCH=$1; shift
+PATCH=$(readlink -f $1); shift
 cd /verif
 git -C /repo apply $PATCH || exit 2
 for p in "$@"; do
-  ./check $p 2>&1 | grep -E "^(VIOLATION|UNDECIDED|KNOWN|property=)" | sed "s/^/[$p] /"
+  ./check $p 2>&1 | grep -E "^(VIOLATION|UNDECIDED|KNOWN|property=|NOTE)" | cut -c1-400 | sed "s/^/[$p] /"
   echo "[$p] exit=${PIPESTATUS[0]}"
 done
 git -C /repo checkout -- .
